@@ -14,6 +14,11 @@ CHECKS = {
             "Chip identity, round pot, published pots and settlement sums as TLA+ state/step predicates; model-checked on the precise "
             "model Holdem.tla in a small scope and evaluated on every step of exhaustive small-scope exploration, TLC-generated scripts "
             "and seeded random hands of the real engine (boundary stacks, antes, dead SB, pot-limit, both decks)."),
+    "C02": ("spec/PotProps.tla C02_* on every contribution/fold/strength vector fed to the real pot+settlement packages and on every closed hand",
+            "Showdown payout as input/output predicates (folded wins nothing and gets uncalled chips back; a player collects an equal "
+            "share, within one chip, of exactly the side pots he is among the best of; zero sum). MCPots checks the precise model "
+            "Pots/Settlement for all vectors in scope; the real packages are fed every vector of the scope in every insertion order "
+            "(<= 4 players) plus seeded realistic vectors; every GameClosed state of real play is judged by the same predicates."),
     "C04": ("spec/HoldemProps.tla C04_* incl. refusal probes of every seat x action x amount",
             "Turn order and refusals: first-to-act, clockwise walk, single offered seat, and state-unchanged refusal of every "
             "out-of-turn / unoffered / wrong-phase call, probed on JSON clones at every state of probe runs."),
@@ -23,6 +28,10 @@ CHECKS = {
     "C06": ("spec/HoldemProps.tla C06_* + liveness Terminates under WF in MCHoldem",
             "Single wait point, expected step succeeds, street order, result iff closed, closed is final; termination as liveness on the "
             "model and as bounded non-progress on every real trace; Start defects singly and in pairs."),
+    "C16": ("spec/PotProps.tla C16_* on every vector fed to pot.LevelList and on every published pot list of real play",
+            "Published pots: strictly increasing levels, totals from all players, eligible = non-folded who reached the level listed with "
+            "the per-pot amount, strictly shrinking eligible sets, totals sum to all chips; exhaustive small-scope vectors in every "
+            "insertion order and every RoundClosed/GameClosed state of real play."),
     "C11": ("spec/HoldemProps.tla C11_offer/C11_effect, every offered action forked at every decision point",
             "Offer table read from the chips on the table (not the engine's bookkeeping) and effects of each action; each offered action "
             "and size class exercised on JSON clones at each reached decision point."),
